@@ -84,9 +84,48 @@ def translate(src) -> dict:
     expect(pool, "ProcessPoolOpInvoker", "map", ["return self.pool.map(worker.worker, self._task_iter(tasks))"], "pool.py")
     expect(pool, "ProcessPoolOpInvoker", "_task_iter", ["for task in tasks:\n    yield task"], "pool.py")
     expect(wrk, None, "worker", ["res = __work_context.func(__work_context.model, arg)", "return res"], "worker.py")
+    # the worker initialiser, statement by statement: everything it does in a fresh worker process is one of the recognised
+    # steps (none of which touches process-wide state other than the warning filters and the work context); any other
+    # statement -- a call that changes the numeric mode, default dtype, error state, thread or RNG state of the worker,
+    # say -- is refused, because the value of a task would then depend on the process it runs in
     got, _ = body_src(wrk, None, "initalize")
-    if "try:\n    __work_context = shm_deserialize(ctx)\nexcept Exception as e:\n    raise e" not in got:
-        raise TranslateError(f"worker.py:initalize does not rebuild the context with shm_deserialize(ctx): {got}")
+    known = {"global __work_context, __progress": "InitDeclareGlobals",
+             "proc = mp.current_process()": "InitCurrentProcess",
+             "warnings.filterwarnings('ignore', 'Sparse CSR tensor support is in beta state', UserWarning)": "InitFilterWarnings",
+             "try:\n    __work_context = shm_deserialize(ctx)\nexcept Exception as e:\n    raise e": "InitRebuildContext"}
+    known = {ast.unparse(ast.parse(k)): v for k, v in known.items()}
+    init_steps = []
+    for st in got:
+        if st not in known:
+            raise TranslateError(f"worker.py:initalize makes a step that is not recognised (it may change the environment tasks run in): `{st}`; statements: {got}")
+        init_steps.append(known[st])
+    if init_steps.count("InitRebuildContext") != 1:
+        raise TranslateError(f"worker.py:initalize does not rebuild the context with shm_deserialize(ctx) exactly once: {got}")
+    f = pyq.find_def(wrk, None, "initalize")
+    if f.decorator_list or [a.arg for a in f.args.args] != ["ctx"]:
+        raise TranslateError("worker.py:initalize is not a plain function of ctx")
+    top = []
+    for n in pyq.strip_doc(list(wrk.body)):
+        if isinstance(n, (ast.Import, ast.ImportFrom)):
+            continue
+        top.append(getattr(n, "name", None) or ast.unparse(n))
+    if top != ["_log = get_logger(__name__)", "__work_context: WorkerData", "WorkerData", "initalize", "worker"]:
+        raise TranslateError(f"worker.py: unexpected module-level statements (they run in every worker process at import): {top}")
+    if pyq.find_def(wrk, None, "worker").decorator_list:
+        raise TranslateError("worker.py:worker is decorated")
+    # the worker process itself: logging context, lenskit's thread configuration, then the executor's loop
+    expect(pool, "LensKitProcess", "run",
+           ["with WorkerContext(self._log_config) as ctx:\n"
+            "    initialize(self._parallel_config)\n"
+            "    task = None\n"
+            "    try:\n"
+            "        with Task('worker process', subprocess=True) as task:\n"
+            "            ctx.send_task(task)\n"
+            "            super().run()\n"
+            "    finally:\n"
+            "        if task is not None:\n"
+            "            ctx.send_task(task)"], "pool.py")
+    expect(pool, "LensKitMPContext", "Process", ["return LensKitProcess(self._log_config, self._parallel_config, *args, **kwargs)"], "pool.py")
     got, _ = body_src(pool, "ProcessPoolOpInvoker", "__init__")
     need = ["self.manager = SharedMemoryManager()", "self.manager.start()",
             "try:\n    job = worker.WorkerData(func, model)\n    job = shm_serialize(job, self.manager)\n"
@@ -224,4 +263,5 @@ def translate(src) -> dict:
     text += "Definition run_pipeline_steps : list rp_step := [RPQueryFromUserId; RPItemsIfTestItems; RPExtraOverride; RPRunAll; RPCopyOutputs].\n"
     text += "Definition batch_loop_shape : batch_loop := AddEachOutputUnderItsKey.\n"
     text += "Definition pool_shutdown : list shutdown_step := [ShutPool; ShutManager].\n"
+    text += f"Definition worker_init_steps : list init_step := [{'; '.join(init_steps)}].\n"
     return {"Gen/C12_shape.v": text}
